@@ -315,12 +315,8 @@ def chunks8 : Nat → Bytes → List Bytes
 def extractIntArr (ser : Bytes) (vs : List Bytes) : Bool :=
   vs.all fun v => (chunks8 (ser.length + 1) ser).contains v
 
-inductive VT where
-  | str | int | strArr | intArr
-  deriving DecidableEq, Repr
-
-def VT.isArray : VT → Bool
-  | .strArr => true | .intArr => true | _ => false
+/-- `pbv1.ValueType` of a stored tag: the same four shapes as the schema's tag type. -/
+abbrev VT := TagType
 
 /-- `DictionaryFilter{values, valueType}`. -/
 structure Dict where
@@ -488,7 +484,8 @@ def rangeSkip (mn mx : Bytes) (r : IntRange) : Bool :=
 
 /-- skipping-filter tree shared by both engines (`index.Filter` restricted to `ShouldSkip`). -/
 inductive SFilter where
-  | never                                  -- ENode / `not` / traceFilter / match: never skips
+  | never                                  -- ENode (stream) / traceFilter, traceMatchFilter (trace): never skips
+  | noskip                                 -- stream `not` node: never skips, but is not the ENode singleton
   | eq (tag : Nat) (probe : List Bytes)    -- probes = `Expr.Bytes()`
   | range (tag : Nat) (r : Option IntRange) (floatBounds : Bool)
   | having (tag : Nat) (probes : List Bytes)
@@ -530,9 +527,11 @@ def opRange (e : Engine) (s : BlockSummary) (tag : Nat) (r : Option IntRange) (f
   | some ts =>
     match e with
     | .stream =>
-      match r with
-      | none => if floatBounds then some false else none
-      | some r => some (rangeSkip ts.min ts.max r)
+      -- repaired (F62): a block without recorded bounds is never pruned
+      if ts.min.isEmpty || ts.max.isEmpty then some false
+      else match r with
+        | none => if floatBounds then some false else none
+        | some r => some (rangeSkip ts.min ts.max r)
     | .trace =>
       if ts.vt != .int || ts.min.isEmpty || ts.max.isEmpty then some false
       else match r with
@@ -542,6 +541,7 @@ def opRange (e : Engine) (s : BlockSummary) (tag : Nat) (r : Option IntRange) (f
 /-- `ShouldSkip`: `none` = error. -/
 def shouldSkip (H : Bytes → Nat) (e : Engine) (s : BlockSummary) : SFilter → Option Bool
   | .never => some false
+  | .noskip => some false
   | .eq tag probe =>
     match probe with
     | [v] => some (!opEq H e s tag v)
@@ -600,7 +600,7 @@ def compileStreamLeaf (schema : List TagType) (op : Op) (tag : Nat) (lit : Val) 
     | none => .panic
     | some (r, fb) => .ok (.range tag r fb)
   | .eq => .ok (.eq tag (litBytes lit))
-  | .ne => .ok .never
+  | .ne => .ok .noskip
   | .match_ => .err .op
   | .having =>
     match subExprs lit with
@@ -610,7 +610,8 @@ def compileStreamLeaf (schema : List TagType) (op : Op) (tag : Nat) (lit : Val) 
   | .notHaving =>
     match subExprs lit with
     | none => .panic
-    | some _ => .ok .never
+    | some [] => .ok .never
+    | some _ => .ok .noskip
   | .in_ =>
     if ((schema[tag]?).map TagType.isArray).getD false then .err .op
     else match subExprs lit with
@@ -621,7 +622,8 @@ def compileStreamLeaf (schema : List TagType) (op : Op) (tag : Nat) (lit : Val) 
     if ((schema[tag]?).map TagType.isArray).getD false then .err .op
     else match subExprs lit with
       | none => .panic
-      | some _ => .ok .never
+      | some [] => .ok .never
+      | some _ => .ok .noskip
 
 def SFilter.isNever : SFilter → Bool
   | .never => true
@@ -682,13 +684,15 @@ def compileTrace (schema : List TagType) : Criteria → Compiled SFilter
 /-! ### what a writer puts into a summary (specification used by `pruning_sound`) -/
 
 /-- stored byte values of a tag value: scalar → itself, array → its elements, null → nothing
-    (`tagValue.value` / `valueArr` after `encodeTagValue`). -/
-def valItems : Val → List Bytes
-  | .null => []
-  | .str s => [s]
-  | .int v => [encI64 v]
-  | .strArr a => a
-  | .intArr a => a.map encI64
+    (`tagValue.value` / `valueArr` after `encodeTagValue`); the same bytes a literal is probed with. -/
+abbrev valItems : Val → List Bytes := litBytes
+
+def Val.hasType : Val → TagType → Bool
+  | .str _, .str => true
+  | .int _, .int => true
+  | .strArr _, .strArr => true
+  | .intArr _, .intArr => true
+  | _, _ => false
 
 /-- serialized dictionary value of a tag value (`tagValue.marshal`). -/
 def valMarshal : Val → Option Bytes
@@ -697,6 +701,26 @@ def valMarshal : Val → Option Bytes
   | .int v => some (encI64 v)
   | .strArr a => some (marshalStrArr a)
   | .intArr a => some ((a.map encI64).flatten)
+
+/-! ### the writer's min/max accumulation (`banyand/stream/block.go` processTags) -/
+
+/-- one step of the min update for a stored int value (`nil` = null). Repaired (F27): null values are ignored. -/
+def minStep (mn : Bytes) : Option Bytes → Bytes
+  | none => mn
+  | some v => if mn.isEmpty then v else if lexLt v mn then v else mn
+
+/-- the step at the pinned commit: a nil value compares below everything and empties `min`. -/
+def minStep_legacy (mn : Bytes) (v : Option Bytes) : Bytes :=
+  let x := v.getD []
+  if mn.isEmpty then x else if lexLt x mn then x else mn
+
+def maxStep (mx : Bytes) : Option Bytes → Bytes
+  | none => mx
+  | some v => if mx.isEmpty then v else if lexLt mx v then v else mx
+
+def blockMin (vs : List (Option Bytes)) : Bytes := vs.foldl minStep []
+def blockMin_legacy (vs : List (Option Bytes)) : Bytes := vs.foldl minStep_legacy []
+def blockMax (vs : List (Option Bytes)) : Bytes := vs.foldl maxStep []
 
 /-! ## 6. inverted index (abstract) and `Execute` of the compiled tree
    (`pkg/query/logical/stream/index_filter.go`, searcher = `pkg/index/inverted`) -/
@@ -745,8 +769,11 @@ inductive IRange where
   | all                                     -- empty RangeOpts (null literal) = `MatchField`
   deriving Repr, DecidableEq
 
+/-- bluge `NewNumericRangeInclusiveQuery`: an exclusive bound is turned into an inclusive one by ±1, except at the
+    ends of the int64 range, where it stays as it is (so `< MinInt64` still admits `MinInt64`). -/
 def inIntRange (r : IntRange) (v : I64) : Bool :=
-  (if r.inclLo then r.lo.sle v else r.lo.slt v) && (if r.inclHi then v.sle r.hi else v.slt r.hi)
+  (if r.inclLo || r.lo == maxI64 then r.lo.sle v else r.lo.slt v) &&
+  (if r.inclHi || r.hi == minI64 then v.sle r.hi else v.slt r.hi)
 
 def inBytesRange (lo hi : Bytes) (il ih : Bool) (b : Bytes) : Bool :=
   (if il then !lexLt b lo else lexLt lo b) && (if ih then !lexLt hi b else lexLt b hi)
